@@ -292,3 +292,14 @@ pub fn env_u64(name: &str, default: u64) -> u64 {
 pub fn master_seed() -> u64 {
     env_u64("VERIF_SEED", DEFAULT_SEED)
 }
+
+/// The scratch directory of one run: a pure function of (engine, master seed, run index) —
+/// never of the pid or the worker count — because paths are hashed and compared by the code
+/// under test, so a different spelling is a different execution.
+pub fn run_directory(engine: &str, seed: u64, index: u64) -> std::path::PathBuf {
+    let base = if std::path::Path::new("/dev/shm").is_dir() { "/dev/shm" } else { "/verif/scratch" };
+    let dir = std::path::PathBuf::from(base).join("zysim").join(format!("{engine}-{seed:020}-{index:08}"));
+    let _ = std::fs::remove_dir_all(&dir);
+    std::fs::create_dir_all(&dir).expect("create scratch directory");
+    dir.canonicalize().expect("canonical scratch directory")
+}
